@@ -76,23 +76,41 @@ PARTIAL = {
         'identity on the tree, XML as xmlNorm (one-element-list collapse); both observed on every correspondence case',
 }
 
-RULE = ('seeded systems (1-7 atoms, 1-3 types, tilted / axis-permuted / all-nonzero cells of either handedness on a '
-        'dyadic grid, non-zero origin, random pbc, missing/extra symbols, missing masses, int/float/str per-atom '
-        "properties of rank 1-3), every unit choice per property: None, 'scaled' for (n,3) data, simple units, random "
+RULE = ('seeded systems (1-7 atoms, 1-3 types, lower-triangular cells with every sign pattern of the diagonal, '
+        'axis-permuted, all-nonzero of either handedness, rotated (non-dyadic entries, 1e-17 leftovers of a quarter '
+        'turn), cells with negligible (1e-17, 1e-12 relative) and small (1e-7) entries, all on a common magnitude '
+        '2^k, k in 0, +-10, +-40, +-100, +-300; non-zero origin, random pbc, missing/extra/non-ASCII symbols, missing '
+        'masses, masses handed over as np.float32 / np.int64 / int; atoms on cell faces / edges / corners, 1e-9 .. '
+        '1e-4 (relative) off them and far outside; int/float/str/bool per-atom properties of rank 1-3 incl. per-atom '
+        'shapes (1,), (1,1), (3,1), natoms = 1; values: dyadic grid, uniform floats, signed zero / denormal / 1e+-300 '
+        '/ NaN / infinities (no unit: bit-for-bit), integers beyond 2^53, strings with blanks / unicode / tabs / line '
+        'breaks / quotes / markup (and, for tree / JSON, empty, blank-padded and number look-alike strings); property '
+        'names incl. short ones that are substrings of reserved names, names equal to keys of the written tree, names '
+        'with a blank / non-ASCII letter; every array handed over C-contiguous, Fortran-ordered, as a strided view, '
+        'read-only, as a python list or as float32 / int32), '
+        "every unit choice per property: None, 'scaled' for (n,3) data, simple units, random "
         "compound unit expressions (every order of '*' and '/', parentheses, powers incl. negative and fractional, "
         'number literals, blanks) and dimension-preserving templates with a cancelling factor on either side '
         "(L/X*X, X*L/X, X/(X/L), eV/GPa/L^2, ... for lengths; eV/L^3, nN/L/L, P/X*X, ... for pressures); uc.model on "
         'values of rank 0-4, a quarter of them stored with error=; Box; Atoms (30 % with a random selection of the '
         'properties in random order); ElasticConstants generated in the general normal form of every crystal system '
         '(isotropic, cubic, hexagonal, 6- and 7-constant tetragonal, 6- and 7-constant rhombohedral, orthorhombic, '
-        'monoclinic, triclinic; Cij= or named constants) and stored as every crystal_system argument incl. monoclinic and unknown names (60 % one in '
+        'monoclinic, triclinic; Cij= or named constants; magnitudes 2^0, 2^+-20, 2^+-40, 2^+-100) and stored as every '
+        'crystal_system argument incl. monoclinic and unknown names (60 % one in '
         'whose normal form the crystal already is); object sessions: one System holding one Box through 3-8 '
-        'operations out of reciprocal_vects, position conversions, vects/origin setters, Box.model(model=) into the '
-        'existing object, System dumps with box-scaled positions; every case written under one uc.reset_units '
+        'operations out of reciprocal_vects, position conversions, vects/origin setters, in-place edits of positions, '
+        'Box.model(model=) into the existing object, Box dumps and System dumps with box-scaled positions, each dump '
+        'under either configuration; Atoms / System cases with a SECOND dump of the same object after in-place edits '
+        '(and a replaced cell), written under the configuration it was read under (to the same file when the first '
+        'went to a file); every case written under one uc.reset_units '
         'configuration (six, one of them numericalunits\' random units) and read under another, through the '
-        'DataModelDict tree, its JSON text and its XML text; systems also dumped to file paths and file objects, '
-        "with the format name in lower/upper/title case, with indent, and loaded from multi-entry records with key=/"
-        'index=; distinct = distinct canonical request line; non-trivial = a unit conversion, a reshape, a scaled '
+        'DataModelDict tree, its JSON text and its XML text; systems also dumped to file paths (fresh, existing and '
+        'longer, reused), text file objects, StringIO, tempfile wrappers, loaded from paths, byte streams (the same '
+        "stream twice) and text, with the format name in lower/upper/title case, with indent 0/1/4, loaded from "
+        'multi-entry records with key=/index=, with the reader options symbols= / pbc= / masses=; every write done '
+        'twice (first result overwritten by the caller) and every read done twice (first result overwritten), object / '
+        'arguments / input / tree compared bitwise before and after; 14 documented refusals; distinct = distinct '
+        'canonical request line; non-trivial = a unit conversion, a reshape, a scaled '
         'property, a text encoding or object state is involved')
 ASSUMPTIONS = [
     "the conversion factor of a unit string under a working-unit configuration is a scalar parameter fac(u) != 0 "
@@ -1790,16 +1808,17 @@ def _tol(case):
 
 
 def _lengths(case):
-    """(L, P): largest length of the cell (edge component + origin component) and largest component of an
-    (n,3) property of the case."""
+    """(L, P): largest length of the cell (edge component + origin component) and largest component of a
+    property of the case that is stored box-scaled."""
     b = case.get('box')
     L = 8.0 * 2.0 ** case.get('scale', 0)
     if b is not None:
         L = max(abs(x) for row in b['vects'] for x in row) + max(abs(x) for x in b['origin'])
     P = 0.0
+    units = {e['name']: e['unit'] for e in (case.get('sel') or case.get('props', []))}
     for p in case.get('props', []):
-        if p['dt'] in 'fi' and p['shape'][-1:] == [3] and len(p['shape']) >= 2:
-            P = max([P] + [abs(float(x)) for x in p['data'] if x == x and abs(x) != float('inf')])
+        if p['name'] in units and eff_unit(p['name'], units[p['name']]) == 'scaled' and p['dt'] in 'fi':
+            P = max([P] + [abs(float(x)) for x in p['data']])      # (only what is stored box-scaled)
     return L, P
 
 
@@ -2588,10 +2607,11 @@ MANIFEST = {
             'pos->angstrom, symbols/masses padding, near-zero clean-up of the vects/Cij setters), of '
             'ElasticConstants.normalized_as for every crystal system (normForm) and of objects with state (a Box keeps '
             'its reciprocal vectors until the vects setter drops them; a System holds its Box; Box.model(model=) on an '
-            'existing object). Theorems (all inputs, any field): reshape(flatten)=id and flatten(reshape)=id for every '
+            'existing object; in-place edit of a coordinate). Theorems (all inputs, any field): reshape(flatten)=id and flatten(reshape)=id for every '
             'shape; value_unit(model(x))=x and error_unit = the stored error for every non-zero factor, through the tree '
             'and through XML text (exact exception: a shape-(1,) vector is read as a scalar); Box, Atoms, System (cell, '
-            'origin, pbc, symbols, masses, every property incl. box-scaled ones via rel_cart inverse, det != 0) and '
+            'origin, pbc, symbols, masses, every property incl. box-scaled ones via rel_cart inverse, det != 0; also for '
+            'System.model with any selection of the properties that names atype, pos first: system_model_select) and '
             'ElasticConstants round trips through tree/JSON and XML text; a crystal in the general normal form of the '
             'requested crystal_system (3 cubic, 5 hexagonal, 7 tetragonal, 7 rhombohedral, 9 orthorhombic, 13 monoclinic '
             'constants) '
